@@ -258,6 +258,14 @@ func generate(j *job, out, fm, gogoBin, goBin string) {
 			for _, f := range r3.Response.File {
 				got[f.GetName()] = f.GetContent()
 			}
+			if in.Unit.DepSamePackage {
+				// the fast-marshal files of the dependency belong to the same Go package: they are compiled with the rest
+				for _, f := range r3.Response.File {
+					if strings.HasPrefix(f.GetName(), strings.TrimSuffix(in.DepPath, ".proto")) {
+						must(os.WriteFile(filepath.Join(out, f.GetName()), []byte(f.GetContent()), 0o644))
+					}
+				}
+			}
 			for _, f := range r1.Response.File {
 				if c, ok := got[f.GetName()]; !ok {
 					rep.MultiFile = "file " + f.GetName() + " is missing when the dependency is generated in the same request"
@@ -310,7 +318,7 @@ func writeGlue(in *corpus.Instance, dir string) {
 	fds, err := in.FDS()
 	must(err)
 	var sb bytes.Buffer
-	fmt.Fprintf(&sb, "// generated by corpusgen\npackage %s\n\nimport \"verifharness/registry\"\n\nfunc init() {\n\tregistry.Register(&registry.Package{\n", in.GoPkg)
+	fmt.Fprintf(&sb, "// generated by corpusgen\npackage %s\n\nimport \"verifharness/registry\"\n\nfunc init() {\n\tregistry.Register(&registry.Package{\n", in.GoName)
 	fmt.Fprintf(&sb, "\t\tUnit: %q, Flavour: %q, OptKey: %q, GoPkg: %q, Group: %q, Origin: %q, Syntax: %q,\n", in.Unit.Name, in.Flavour, in.OptKey, in.GoPkg, in.Unit.Group, in.Unit.Origin, in.Unit.Syntax)
 	fmt.Fprintf(&sb, "\t\tAtoms: %#v,\n\t\tFast: %v, FilePerMessage: %v, UnsafeDecode: %v,\n", in.Unit.Atoms, in.Fast, in.FilePerMessage, in.Unsafe)
 	fmt.Fprintf(&sb, "\t\tFDS: []byte(%q),\n\t\tMessages: []registry.Message{\n", string(fds))
